@@ -25,6 +25,10 @@ def mapGet (m : List (Hash × Hash)) (k : Hash) : Hash :=
   | some p => p.2
   | none => []
 
+/-- `m.Set(k, e)` on an ordered map whose entries are keyed by their hashes (`Model.omSet` when `k = e.hash`) -/
+def omSetK (E : List Entry) (k : Hash) (e : Entry) : List Entry :=
+  if E.any (fun r => r.hash == k) then E else E ++ [e]
+
 /-- `xs[a:b]`; `none` = "slice bounds out of range" -/
 def slice? {α : Type} (xs : List α) (a b : Int) : Option (List α) :=
   if 0 ≤ a ∧ a ≤ b ∧ b ≤ xs.length then some ((xs.take b.toNat).drop a.toNat) else none
